@@ -613,7 +613,9 @@ class Result(JsonSerializable):
 
         if self._update_type_code == Result.MISCTYPE:
             # For MISCTYPE we just replaced current values with the values from
-            # other
+            # other (unless nothing was ever stored in other)
+            if other.num_updates == 0:
+                return
             self.num_updates = other.num_updates
             self._value = other._value
             self._total = other._total
